@@ -485,7 +485,7 @@ pub fn fals_c09(rng: &mut Rng, thorough: bool) -> Fals {
     o.dropout = true;
     o.max_flat = 8;
     o.acts = vec![Act::Linear, Act::Tanh, Act::Sigmoid, Act::Leaky];
-    let nets = if thorough { 560 } else { 56 };
+    let nets = if thorough { 600 } else { 96 };
     let mut built = 0usize;
     let mut tries = 0usize;
     while built < nets && tries < nets * 40 {
@@ -502,15 +502,32 @@ pub fn fals_c09(rng: &mut Rng, thorough: bool) -> Fals {
             oo.max_flat = 3;
             oo.dropout = false;
         }
-        let (mut spec, input, outsh) = match seq_net(rng, &oo, spatial, depth, with_block, true) {
-            Some(x) => x,
-            None => continue,
+        // eight networks are blocks in which a max-pool layer stands first / last / in the middle (see gen_net2)
+        // and as many as there are special-relation layers carry dropout on such a layer (pointwise, patch-wise, ...)
+        let nspecial = crate::netgen::special_relation_layers().len();
+        let special = if built >= 8 && built < 16 {
+            crate::gen_net2::pool_dropout_block_net(rng, built - 8)
+        } else if built >= 16 && built < 16 + nspecial && tries < nets * 20 {
+            match crate::gen_net2::dropout_special_net(rng, built - 16) {
+                Some(x) => Some(x),
+                None => { built += 1; continue }
+            }
+        } else {
+            None
         };
-        if small && (input.numel() > 2 || arch_of(&spec) != "dense") {
+        let is_special = special.is_some();
+        let (mut spec, input, outsh) = match special {
+            Some(x) => x,
+            None => match seq_net(rng, &oo, spatial, depth, with_block, true) {
+                Some(x) => x,
+                None => continue,
+            },
+        };
+        if !is_special && small && (input.numel() > 2 || arch_of(&spec) != "dense") {
             continue;
         }
         let rate = if small { 0.9 } else { *rng.pick(&[0.3f32, 0.5, 0.9, 0.99]) };
-        if !steer_dropout(rng, &mut spec, want, rate) {
+        if !is_special && !steer_dropout(rng, &mut spec, want, rate) {
             continue;
         }
         let lr = *rng.pick(&[0.05f32, 0.01, 1e-30]);
@@ -728,11 +745,16 @@ pub fn fals_c10(rng: &mut Rng, thorough: bool) -> Fals {
                         // block description (for spatial blocks steer the layer kinds: conv only / deconv only / both)
                         let mut made = None;
                         for _ in 0..60 {
-                            let input = if spatial { Sh::Sp(rng.range(1, 2), rng.range(2, 4), rng.range(2, 4)) } else { Sh::Flat(rng.range(1, 5)) };
-                            let nl = rng.range(1, 3);
+                            // one optimizer kind in five: a WIDE dense block with bias (loops x scalars beyond 2^13)
+                            let wide = !spatial && kind == 2;
+                            let input = if wide { Sh::Flat(if loops >= 2 { 64 } else { 91 }) } else if spatial { Sh::Sp(rng.range(1, 2), rng.range(2, 4), rng.range(2, 4)) } else { Sh::Flat(rng.range(1, 5)) };
+                            let nl = if wide { 1 } else { rng.range(1, 3) };
                             let mut oo = o.clone();
                             if !spatial {
                                 oo.bias = match serial % 3 { 0 => Some(true), 1 => Some(false), _ => None };
+                            }
+                            if wide {
+                                oo.bias = Some(true);
                             }
                             let ls = match rand_block_layers(rng, &oo, input, nl) {
                                 Some(l) => l,
